@@ -125,7 +125,8 @@ def check_content(m, model, path):
         got = m.GetFieldContents(n, tc) if (t == 'raw' or t.startswith('#')) else getattr(m, GET[t])(n, None)
         if got is None: return '%s: typed getter finds nothing' % here
         if len(got) != len(items): return '%s: %d items, script says %d' % (here, len(got), len(items))
-        if m.GetFieldItem(n, tc, None, len(items) - 1) is None: return '%s: GetFieldItem(last) finds nothing' % here
+        if items and m.GetFieldItem(n, tc, None, len(items) - 1) is None: return '%s: GetFieldItem(last) finds nothing' % here
+        if not items: pass   # a zero-item field: present (name, type), no items
         for i, want in enumerate(items):
             g = got[i]
             if t in ('bool', 'i8', 'i16', 'i32', 'i64'): ok = (int(g) == int(want))
